@@ -24,6 +24,11 @@ Subset
                `Vec::new()`, tuples, `if` expressions, `S { a, b: e }` (→ tuple in field order), `*c.borrow()`, `*r`,
                `&e`, `&mut e` (references are transparent), calls of functions declared in the spec (abstract
                parameters such as `Op::operation`, or other translated functions).
+(gensel, section "gensel extensions" below) `return` inside `for` loops over ranges (recursive helpers returning
+`Option Ret × State`), `match xs.binary_search(&k) { Ok(i) | Err(i) => e }` (abstract function `slice.binary_search`),
+`bool as uN`, abstract monadic functions / mutating methods of abstract types, calls with `&mut` arguments of another
+translated function (`mut_calls`), closure arguments filling abstract function parameters of a translated callee
+(`closure_calls`), spec option `canonical_state`.
 Output style: the monad `RbV.Rs.Res` (`ok | panic | fuel`, RbV/Basic/RsSem.lean), `do` blocks of `let x ← …` / `let x := …`
 with Rust's mutation expressed by shadowing, `for` loops as `List.foldlM` of a named body function over `List.range'` /
 the slice / `zipIdx`, `while` loops as named recursive helpers on fuel.  Loop helpers are named `<fn>_for<k>`,
@@ -1375,7 +1380,7 @@ class FnTranslator:
         return vs
 
     def if_stmt(self, e, code):
-        vs = self.outer_vars(self.assigned(e), e)
+        vs = self.outer_vars(sel_canon(self, self.assigned(e)), e)
         c, ct = self.expr(e.cond, code, TBool())
         if not isinstance(ct, TBool):
             self.err("condition of type %r" % (ct,), e.cond)
@@ -1589,7 +1594,7 @@ class FnTranslator:
             assigned = [a for a in assigned if a != seq_var.rust]
             if seq_var.rust in self.reads(s.body):
                 self.err("the body of an `iter_mut()` loop reads the sequence itself", s)
-        state = self.outer_vars(assigned, s)
+        state = self.outer_vars(sel_canon(self, assigned), s)
         state_names = [v.rust for v in state]
         caps = self.captured(s.body, state_names, loop_names)
         if it_mut and seq_var in caps:
@@ -1678,6 +1683,8 @@ class FnTranslator:
         `if c then do …; pure e else do <rest of the function>`; a `return` anywhere else (in a loop, in a nested `if`
         with an `else`) is refused by `stmt`."""
         for idx, st in enumerate(stmts):
+            if sel_is_jump_loop(self, st):      # (gensel) a `for` loop that contains a `return`
+                return sel_seq_fn(self, stmts[idx:], tail_node, code, where)
             if st.kind == "return":
                 if idx != len(stmts) - 1 or tail_node is not None:
                     self.err("statements after `return`", st)
@@ -1963,6 +1970,8 @@ BITS_MUT_METHODS = ("clear", "resize", "insert", "remove")
 
 def bits_assigned(tr, n, decl, out):
     k = n.kind
+    if sel_assigned(tr, n, decl, out):          # (gensel) `x.set_bit(..)`, calls with `&mut` arguments
+        return True
     if k == "blocks":
         tr._assigned(n.b, decl, out)
         return True
@@ -2037,6 +2046,7 @@ def bits_pat_names(pt):
 
 
 def bits_reads(tr, n, out):
+    sel_reads(tr, n, out)                      # (gensel) variables passed implicitly (`extra`) to a `mut_calls` callee
     if bits_is_self_call(tr, n):
         f = bits_self_calls(tr)[n.name]
         for fld in list(f.get("fields", [])) + list(f.get("muts", [])):
@@ -2309,6 +2319,8 @@ def bits_let(tr, s, code):
 
 
 def bits_expr_stmt(tr, e, code):
+    if sel_expr_stmt(tr, e, code):              # (gensel)
+        return True
     if bits_is_self_call(tr, e):
         bits_self_call(tr, e, code)
         return True
@@ -2597,6 +2609,9 @@ def bits_abs_method(tr, e, code, expected):
 
 def bits_expr2(tr, e, code, expected):
     k = e.kind
+    r = sel_expr(tr, e, code, expected)        # (gensel) select / constructors of rank_select.rs, wavelet_matrix.rs
+    if r is not None:
+        return r
     if k == "un" and e.op == "*":
         t = bits_probe_type(tr, e.e)
         if isinstance(t, TAbs) and ("deref:" + t.name) in tr.absfns:
@@ -2695,6 +2710,432 @@ def bits_parse_ceil8(p):
     except Unsupported:
         p.i = i0
         return None
+
+
+# ================================================================================================== gensel extensions
+# (session 5, builder gensel: `RankSelect::{new, select_x, select_1, select_0}`, `build_partlevel`, `WaveletMatrix::new`).
+# Hooked in through the `sel_*` calls in `bits_expr2`, `bits_assigned`, `bits_expr_stmt` and `FnTranslator.seq`:
+#  * `return` inside `for` loops over ranges (also nested): the loop becomes a helper `<fn>_for<k>` by structural recursion
+#    on the list of remaining items, `caps : List ι → State → Res (Option Ret × State)`; `[]` = `pure (none, state)`,
+#    `return e` = `pure (some e, state)`, falling off the body = the recursive call on the rest.  An `if` that contains a
+#    `return` takes the statements after it into both branches (continuation style); after a loop with `return` the caller
+#    continues with `match r with | some v => <return v> | none => <rest>`.
+#  * `match xs.binary_search(&key) { Ok(i) | Err(i) => e }`: the std call is the abstract function `slice.binary_search`
+#    of the spec (one index, whatever the `Result` constructor); its documented contract is a hypothesis of the theorems.
+#  * `b as uN` for a `bool` (`if b then 1 else 0`); abstract *monadic* functions called by path (`RankSelect::new(..)`) or
+#    as mutating methods of an abstract receiver (`bits.set_bit(p, b);` — the receiver is re-bound);
+#  * calls `f(.., &mut a, ..);` of another translated function with `&mut` arguments (spec `mut_calls`): the variables
+#    passed by `&mut` are re-bound to the returned tuple;
+#  * `self.m(args.., |x| e, ..)` where the trailing closure arguments fill abstract function parameters of the translated
+#    callee (spec `closure_calls`): the closures become Lean lambdas (their bodies must be panic-free).
+
+def sel_walk_has(n, pred):
+    found = [False]
+
+    def f(x):
+        if pred(x):
+            found[0] = True
+    bits_walk(n, f)
+    return found[0]
+
+
+def sel_has_return(n):
+    return sel_walk_has(n, lambda x: x.kind == "return")
+
+
+def sel_has_loop(n):
+    return sel_walk_has(n, lambda x: x.kind in ("for", "while"))
+
+
+def sel_is_jump_loop(tr, st):
+    return st.kind == "for" and sel_has_return(st.body)
+
+
+def sel_seq(tr, stmts, code, on_return, on_fall):
+    """statements in jump mode.  `on_return(code, get)`: set `code.final` for `return <value>`, where `get(code)` emits the
+    binds of the value and returns (lean text, type); `on_fall(code)`: set `code.final` for falling off the end."""
+    for idx, st in enumerate(stmts):
+        rest = stmts[idx + 1:]
+        if st.kind == "return":
+            # statements after a `return` (here: the continuation taken into an `if` branch) are unreachable
+            if st.e is None:
+                tr.err("`return` without a value inside a loop", st)
+            e = st.e
+            on_return(code, lambda c: tr.expr(e, c, tr.ret))
+            return
+        if st.kind == "ifs" and sel_has_return(st.e):
+            e = st.e
+            if any(sel_has_loop(x) for x in rest):
+                tr.err("a loop after an `if` that contains a `return` (the continuation would be translated twice)", st)
+            c, ct = tr.expr(e.cond, code, TBool())
+            if not isinstance(ct, TBool):
+                tr.err("condition of type %r" % (ct,), e.cond)
+            subs = []
+            for b in (e.then, e.els):
+                sub = Code()
+                tr.scopes.append({})
+                try:
+                    bst = [] if b is None else list(tr.unit_block(b).stmts)
+                    sel_seq(tr, bst + rest, sub, on_return, on_fall)
+                finally:
+                    tr.scopes.pop()
+                subs.append(sub)
+            code.final = ("if", c, subs[0], subs[1])
+            return
+        if sel_is_jump_loop(tr, st):
+            r = sel_for(tr, st, code)
+            v = tr.tmp()
+            c1, c2 = Code(), Code()
+            on_return(c1, lambda c: (v, tr.ret))
+            sel_seq(tr, rest, c2, on_return, on_fall)
+            code.final = ("match", r, [("some %s" % v, c1), ("none", c2)])
+            return
+        if sel_has_return(st):
+            tr.err("`return` inside `%s` (only `if` and `for` over a range are translated around a `return`)" % st.kind, st)
+        tr.stmt(st, code, False)
+    on_fall(code)
+
+
+def sel_seq_fn(tr, stmts, tail_node, code, where):
+    """function level: the rest of the body from a `for` loop with `return` on"""
+    tys = []
+
+    def fin(c, get):
+        ret, ret_fields = tr.ret, tr.ret_fields
+        outs, out_tys = [tr.lookup(v.rust, where).lean for v in ret_fields], [v.ty for v in ret_fields]
+        val, t = get(c)
+        if not ty_compatible(t, ret):
+            tr.err("the returned expression has type %r, the spec declares %r" % (t, ret), where)
+        c.final = ("pure", tuple_val(outs + [val]))
+        tys.append(out_tys + [t])
+
+    def fall(c):
+        if tail_node is None:
+            tr.err("the function body ends without a value after a loop with `return`", where)
+        fin(c, lambda cc: tr.expr(tail_node, cc, tr.ret))
+    sel_seq(tr, list(stmts), code, fin, fall)
+    for t in tys[1:]:
+        if t != tys[0]:
+            tr.err("`return`s of type %r and %r" % (tys[0], t), where)
+    return tys[0]
+
+
+def sel_for(tr, s, code):
+    """a `for x in a..b` loop whose body contains `return`: emits the recursive helper, binds the loop state in `code`
+    and returns the lean name of the `Option Ret` the loop produced"""
+    tr.n_for += 1
+    name = "%s_for%d" % (tr.lean_fn, tr.n_for)
+    it = s.iter
+    while it.kind == "paren":
+        it = it.e
+    if it.kind != "range" or it.lo is None or it.hi is None:
+        tr.err("`return` inside a `for` loop whose source is not a range `a..b`", s)
+    if s.pat.kind != "pid":
+        tr.err("pattern of a range loop", s.pat)
+    want = tr.declared_type(s.pat.name, None, s)
+    if tr.is_lit(it.lo) and not tr.is_lit(it.hi):
+        hi, ht = tr.expr(it.hi, code, want)
+        lo, lt = tr.expr(it.lo, code, ht)
+    else:
+        lo, lt = tr.expr(it.lo, code, want)
+        hi, ht = tr.expr(it.hi, code, lt)
+    if lt != ht or not isinstance(lt, TInt) or lt.signed:
+        tr.err("range bounds of type %r and %r" % (lt, ht), s)
+    if it.incl:
+        lst = "List.range' %s (%s + 1 - %s)" % (atom(lo), atom(hi), atom(lo))
+    else:
+        lst = "List.range' %s (%s - %s)" % (atom(lo), atom(hi), atom(lo))
+    assigned = tr.assigned(N("for", s.pos, pat=s.pat, iter=s.iter, body=s.body))
+    state = tr.outer_vars(sel_canon(tr, assigned), s)
+    state_names = [v.rust for v in state]
+    caps = tr.captured(s.body, state_names, [s.pat.name])
+    saved_scopes, saved_tail = tr.scopes, tr.tail_expected
+    tr.tail_expected = None
+    tr.scopes = [dict((v.rust, Var(v.rust, v.lean, v.ty)) for v in caps + state)]
+    for sc in saved_scopes:
+        if s.pat.name in sc and s.pat.name != "_" and not tr.spec.get("loop_shadow_ok"):
+            tr.err("loop variable `%s` shadows a variable of an enclosing block (not translated)" % s.pat.name, s)
+    lv = tr.declare(s.pat.name, lt, s, mutable=False, nested_ok=True)
+    live = set(v.lean for v in caps + state) | {lv.lean}
+    rest_nm = "rest_"
+    while rest_nm in live:
+        rest_nm += "'"
+    st_val = tuple_val([v.lean for v in state])
+    rec = "%s%s%s %s %s" % (name, tr.abs_args(), "".join(" " + v.lean for v in caps), rest_nm, st_val)
+    tr.loop_depth += 1
+    try:
+        body = Code()
+
+        def on_return(c, get):
+            val, t = get(c)
+            if not ty_compatible(t, tr.ret):
+                tr.err("`return` of type %r, the spec declares %r" % (t, tr.ret), s)
+            c.final = ("pure", "(some %s, %s)" % (atom(val), st_val))
+
+        def on_fall(c):
+            c.final = ("call", rec)
+        tr.scopes.append({})
+        try:
+            sel_seq(tr, list(tr.unit_block(s.body).stmts), body, on_return, on_fall)
+        finally:
+            tr.scopes.pop()
+    finally:
+        tr.scopes, tr.tail_expected = saved_scopes, saved_tail
+        tr.loop_depth -= 1
+    st_ty = tuple_ty([v.ty for v in state])
+    res_ty = "Option %s × %s" % (paren_ty(tr.ret.lean()), paren_ty(st_ty))
+    lines = ["/-- `for %s` (line %d), a loop with `return`: by recursion on the remaining items; `some v` = the function "
+             "returned `v` from inside the loop -/" % (tr.src_text(s, None)[4:].strip(), tr.src.line_of(s.pos)),
+             "%s : List %s → %s → Res (%s)" % (tr.helper_header(name, caps), paren_ty(lt.lean()), paren_ty(st_ty), res_ty),
+             "  | [], %s => pure (none, %s)" % (tuple_pat([v.lean for v in state]), st_val),
+             "  | %s :: %s, %s => do" % (lv.lean, rest_nm, tuple_pat([v.lean for v in state]))]
+    emit_code(body, 4, lines)
+    tr.helpers.append("\n".join(lines))
+    r = tr.tmp()
+    out_pat = "(" + ", ".join([r] + ([v.lean for v in state] if state else ["_"])) + ")"
+    code.bind(out_pat, ("call", "%s%s%s %s %s" % (name, tr.abs_args(), "".join(" " + v.lean for v in caps), atom(lst), st_val)))
+    return r
+
+
+def sel_canon(tr, names):
+    """spec `canonical_state=True`: the variables a loop / `if` carries are ordered by *declaration* (fields and parameters
+    in spec order, then locals in order of their `let`), not by first assignment — so that swapping two statements or the
+    branches of an `if` does not permute the state tuple the equality theorems are stated for"""
+    if not (tr.spec.get("canonical_state") or tr.unit.get("canonical_state")):
+        return names
+    order = {}
+    for sc in tr.scopes:
+        for k in sc:
+            order.setdefault(k, len(order))
+    return sorted(names, key=lambda n: (order.get(n.lstrip("*"), len(order)), n))
+
+
+def sel_closure_calls(tr):
+    d = dict(tr.unit.get("closure_calls", {}))
+    d.update(tr.spec.get("closure_calls", {}))
+    return d
+
+
+def sel_mut_calls(tr):
+    d = dict(tr.unit.get("mut_calls", {}))
+    d.update(tr.spec.get("mut_calls", {}))
+    return d
+
+
+def sel_mut_methods(tr):
+    """abstract functions `X.m` of the spec marked `mutates=True`: `recv.m(args);` re-binds the receiver"""
+    return dict((k.split(".", 1)[1], f) for k, f in tr.absfns.items() if f.get("mutates") and "." in k)
+
+
+def sel_reads(tr, n, out):
+    if n.kind == "call" and len(n.path) == 1 and n.path[0] in sel_mut_calls(tr):
+        for x in sel_mut_calls(tr)[n.path[0]].get("extra", []):
+            if any(x in sc for sc in tr.scopes) and x not in out:
+                out.append(x)
+
+
+def sel_arg_var(tr, a):
+    while a.kind == "paren" or (a.kind == "un" and a.op == "&"):
+        a = a.e
+    return a
+
+
+def sel_assigned(tr, n, decl, out):
+    if n.kind != "exprs":
+        return False
+    e = n.e
+    if e.kind == "mcall" and e.name in sel_mut_methods(tr) and not bits_is_self_call(tr, e):
+        try:
+            r = tr._lhs_root(e.recv)
+        except Unsupported:
+            return False
+        if r not in decl and r not in out:
+            out.append(r)
+        return True
+    if e.kind == "call" and len(e.path) == 1 and e.path[0] in sel_mut_calls(tr):
+        f = sel_mut_calls(tr)[e.path[0]]
+        for i in f["muts"]:
+            if i < len(e.args):
+                r = tr._lhs_root(sel_arg_var(tr, e.args[i]))
+                if r not in decl and r not in out:
+                    out.append(r)
+        return True
+    return False
+
+
+def sel_expr_stmt(tr, e, code):
+    if e.kind == "mcall" and e.name in sel_mut_methods(tr) and not bits_is_self_call(tr, e):
+        rt = bits_probe_type(tr, e.recv)
+        if not isinstance(rt, TAbs):
+            return False
+        key = "%s.%s" % (rt.name, e.name)
+        f = tr.absfns.get(key)
+        if f is None or not f.get("mutates"):
+            return False
+        v = tr.lookup(tr._lhs_root(e.recv), e)
+        if len(f["args"]) != len(e.args) + 1:
+            tr.err("`.%s` called with %d arguments, the spec says %d" % (e.name, len(e.args), len(f["args"]) - 1), e)
+        parts = [v.lean]
+        for a, at in zip(e.args, f["args"][1:]):
+            want = tr.ty_of_text(at)
+            s, t = tr.expr(a, code, want)
+            if t != want:
+                tr.err("argument of `.%s` has type %r, the spec says %r" % (e.name, t, want), a)
+            parts.append(atom(s))
+        call = f["lean"] + "".join(" " + x for x in parts)
+        if f.get("monadic"):
+            code.bind(v.lean, ("call", call))
+        else:
+            code.let(v.lean, call)
+        return True
+    if e.kind == "call" and len(e.path) == 1 and e.path[0] in sel_mut_calls(tr):
+        f = sel_mut_calls(tr)[e.path[0]]
+        if len(f["args"]) != len(e.args):
+            tr.err("`%s` called with %d arguments, the spec says %d" % (e.path[0], len(e.args), len(f["args"])), e)
+        parts = list(f.get("extra", []))
+        outs = []
+        for i, (a, at) in enumerate(zip(e.args, f["args"])):
+            want = tr.ty_of_text(at)
+            if i in f["muts"]:
+                av = sel_arg_var(tr, a)
+                if av.kind != "var":
+                    tr.err("`&mut` argument of `%s` that is not a variable" % e.path[0], a)
+                v = tr.lookup(av.name, a)
+                if v.ty != want:
+                    tr.err("argument of `%s` has type %r, the spec says %r" % (e.path[0], v.ty, want), a)
+                parts.append(v.lean)
+                outs.append(v.lean)
+                continue
+            s, t = tr.expr(a, code, want)
+            if t != want:
+                tr.err("argument of `%s` has type %r, the spec says %r" % (e.path[0], t, want), a)
+            parts.append(atom(s))
+        if len(set(outs)) != len(outs):
+            tr.err("the same variable passed twice by `&mut`", e)
+        code.bind(tuple_pat(outs), ("call", f["lean"] + "".join(" " + p for p in parts)))
+        return True
+    return False
+
+
+def sel_expr(tr, e, code, expected):
+    k = e.kind
+    if k == "cast":
+        target = tr.ty(e.ty)
+        if isinstance(target, TInt) and isinstance(bits_probe_type(tr, e.e), TBool):
+            s, _ = tr.expr(e.e, code, TBool())
+            return "(if %s then 1 else 0)" % s, target
+        return None
+    if k == "match":
+        sc = e.scrut
+        while sc.kind == "paren":
+            sc = sc.e
+        if sc.kind == "mcall" and sc.name == "binary_search" and len(sc.args) == 1:
+            return sel_bsearch(tr, e, sc, code, expected)
+        return None
+    if k == "call" and "::".join(e.path) in tr.absfns and tr.absfns["::".join(e.path)].get("monadic"):
+        path = "::".join(e.path)
+        f = tr.absfns[path]
+        if len(f["args"]) != len(e.args):
+            tr.err("`%s` called with %d arguments, the spec says %d" % (path, len(e.args), len(f["args"])), e)
+        parts = []
+        for a, at in zip(e.args, f["args"]):
+            want = tr.ty_of_text(at)
+            s, t = tr.expr(a, code, want)
+            if t != want:
+                tr.err("argument of `%s` has type %r, the spec says %r" % (path, t, want), a)
+            parts.append(atom(s))
+        t = tr.tmp()
+        code.bind(t, ("call", f["lean"] + "".join(" " + p for p in parts)))
+        return t, tr.ty_of_text(f["ret"])
+    if k == "mcall" and e.recv.kind == "var" and e.recv.name == "self" and e.name in sel_closure_calls(tr):
+        f = sel_closure_calls(tr)[e.name]
+        ncl = len(f["closures"])
+        if len(e.args) != len(f["args"]) + ncl:
+            tr.err("`self.%s` called with %d arguments, the spec says %d" % (e.name, len(e.args), len(f["args"]) + ncl), e)
+        parts = [tr.lookup("self." + fld, e).lean for fld in f.get("fields", [])]
+        for a, at in zip(e.args[:len(f["args"])], f["args"]):
+            want = tr.ty_of_text(at)
+            s, t = tr.expr(a, code, want)
+            if t != want:
+                tr.err("argument of `self.%s` has type %r, the spec says %r" % (e.name, t, want), a)
+            parts.append(atom(s))
+        lams = []
+        for cl, (pt, rt_) in zip(e.args[len(f["args"]):], f["closures"]):
+            if cl.kind != "closure" or len(cl.params) != 1:
+                tr.err("argument of `self.%s` that should be a one-parameter closure" % e.name, cl)
+            live = set(v.lean for sc in tr.scopes for v in sc.values())
+            bname = lean_name(cl.params[0])
+            while bname in live:
+                bname += "'"
+            sub = Code()
+            tr.scopes.append({cl.params[0]: Var(cl.params[0], bname, tr.ty_of_text(pt), False)})
+            try:
+                want = tr.ty_of_text(rt_)
+                b, bt = tr.expr(cl.body, sub, want)
+            finally:
+                tr.scopes.pop()
+            if sub.items:
+                tr.err("closure whose body can panic (only panic-free closure bodies become Lean lambdas)", cl)
+            if bt != want:
+                tr.err("closure returns %r, the spec says %r" % (bt, want), cl)
+            lams.append("(fun %s => %s)" % (bname, b))
+        t = tr.tmp()
+        code.bind(t, ("call", f["lean"] + tr.abs_args() + "".join(" " + x for x in lams) + "".join(" " + p for p in parts)))
+        return t, tr.ty_of_text(f["ret"])
+    return None
+
+
+def sel_bsearch(tr, e, sc, code, expected):
+    f = tr.absfns.get("slice.binary_search")
+    if f is None:
+        tr.err("`.binary_search(..)` (no abstract function `slice.binary_search` declared in the spec)", sc)
+    if len(e.arms) != 1 or e.arms[0].guard is not None or len(e.arms[0].pats) != 2:
+        tr.err("`match` on the result of `binary_search` other than `Ok(i) | Err(i) => …`", e)
+    a = e.arms[0]
+    names = set()
+    ctors = set()
+    for pt in a.pats:
+        if pt.kind != "pctor" or len(pt.args) != 1 or pt.args[0].kind != "pid":
+            tr.err("`match` on the result of `binary_search` other than `Ok(i) | Err(i) => …`", e)
+        ctors.add(pt.name)
+        names.add(pt.args[0].name)
+    if ctors != {"Ok", "Err"} or len(names) != 1:
+        tr.err("`match` on the result of `binary_search` other than `Ok(i) | Err(i) => …`", e)
+    recv = sc.recv
+    while recv.kind == "paren" or (recv.kind == "un" and recv.op == "&"):
+        recv = recv.e
+    if recv.kind == "index" and recv.idx.kind == "range":
+        base, bt = tr.expr(recv.base, code)
+        if not isinstance(bt, TSeq) or recv.idx.incl:
+            tr.err("slice of %r" % (bt,), recv)
+        lo = "0" if recv.idx.lo is None else tr.expr(recv.idx.lo, code, TInt("usize"))[0]
+        hi = ("%s.length" % atom(base)) if recv.idx.hi is None else tr.expr(recv.idx.hi, code, TInt("usize"))[0]
+        t = tr.tmp()
+        code.bind(t, ("call", "Rs.slice %s %s %s" % (atom(base), atom(lo), atom(hi))))
+        r, rt = t, bt
+    else:
+        r, rt = tr.expr(recv, code)
+    if rt != tr.ty_of_text(f["args"][0]):
+        tr.err("`.binary_search` on %r, the spec says %r" % (rt, tr.ty_of_text(f["args"][0])), sc)
+    key, kt = tr.expr(sc.args[0], code, rt.elem)
+    if kt != rt.elem:
+        tr.err("`.binary_search` for a key of type %r in %r" % (kt, rt), sc)
+    nm = list(names)[0]
+    tr.scopes.append({})
+    saved = tr.tail_expected
+    tr.tail_expected = expected
+    try:
+        v = tr.declare(nm, tr.ty_of_text(f["ret"]), a, mutable=False, nested_ok=True)
+        if v.lean != "_":
+            code.let(v.lean, "%s %s %s" % (f["lean"], atom(r), atom(key)))
+        res = tr.block(a.body, code, False)
+    finally:
+        tr.tail_expected = saved
+        tr.scopes.pop()
+    if res is None:
+        tr.err("`match` arm without value", a)
+    return res
+
 
 
 # ================================================================================================== units (= generated files)
@@ -2949,6 +3390,11 @@ RANKSELECT_ABS = {
 RANKSELECT_FIELDS = [("n", "usize"), ("bits", "BitVec"), ("superblocks_1", "Vec<SuperblockRank>"),
                      ("superblocks_0", "Vec<SuperblockRank>"), ("s", "usize"), ("k", "usize")]
 
+RANKSELECT_BSEARCH = {"slice.binary_search": dict(lean="bsearch", args=["Vec<SuperblockRank>", "SuperblockRank"], ret="usize")}
+RANKSELECT_SELECT_X = {"select_x": dict(lean="SrcRankSelect.selectX", fields=[f for f, _ in RANKSELECT_FIELDS],
+                                        args=["u64", "&[SuperblockRank]"], closures=[("u8", "bool"), ("u8", "u32")],
+                                        ret="Option<u64>")}
+
 unit(name="SrcRankSelect", props="property C17", file="src/data_structures/rank_select.rs",
      imports=["RbV.Basic.RsSemBits"], generics={"BitVec": "β", "SuperblockRank": "σ"}, abstract_types=["BitVec"],
      abstract_fns=RANKSELECT_ABS,
@@ -2965,7 +3411,37 @@ unit(name="SrcRankSelect", props="property C17", file="src/data_structures/rank_
                      theorem="RbV.Thm.GenSrcRankSelect.rank1_eq_model"),
                 dict(name="RankSelect::rank_0", lean="rank0", header="pub fn rank_0(&self, i: u64) -> Option<u64>",
                      self_fields=RANKSELECT_FIELDS, params=[("i", "u64")], ret="Option<u64>",
-                     theorem="RbV.Thm.GenSrcRankSelect.rank0_eq_model")])
+                     theorem="RbV.Thm.GenSrcRankSelect.rank0_eq_model"),
+                # (gensel) the constructor: the struct is the tuple of its fields in declaration order
+                dict(name="RankSelect::new", lean="new", header="pub fn new(bits: BitVec<u8>, k: usize) -> RankSelect",
+                     params=[("bits", "BitVec<u8>"), ("k", "usize")],
+                     ret="(usize, BitVec<u8>, Vec<SuperblockRank>, Vec<SuperblockRank>, usize, usize)",
+                     struct_fields={"RankSelect": [f for f, _ in RANKSELECT_FIELDS]},
+                     struct_field_types={"RankSelect": dict(RANKSELECT_FIELDS)},
+                     calls={"superblocks": dict(lean="SrcRankSelect.superblocks", args=["bool", "usize", "usize", "&BitVec<u8>"],
+                                                ret="Vec<SuperblockRank>",
+                                                extra=[f["lean"] for f in RANKSELECT_ABS.values()])},
+                     theorem="RbV.Thm.GenSrcRankSelectNew.new_eq_model"),
+                # (gensel) select: `binary_search` on the superblock table is the abstract function `bsearch` (std; its
+                # documented contract is the hypothesis `BSearchOk` of the theorems); the two closure parameters of
+                # `select_x` are abstract functions, filled in by the closures `select_1` / `select_0` pass
+                dict(name="RankSelect::select_x", lean="selectX",
+                     header="fn select_x<F: Fn(u8) -> bool, C: Fn(u8) -> u32>(&self, j: u64, "
+                            "superblocks: &[SuperblockRank], is_match: F, count_all: C,) -> Option<u64>",
+                     self_fields=RANKSELECT_FIELDS, params=[("j", "u64"), ("superblocks", "&[SuperblockRank]")],
+                     ret="Option<u64>", locals={"bit": "u8", "max_bit": "u64"}, canonical_state=True,
+                     abstract_fns=dict(RANKSELECT_BSEARCH, **{
+                         "is_match": dict(lean="isMatch", args=["u8"], ret="bool"),
+                         "count_all": dict(lean="countAll", args=["u8"], ret="u32")}),
+                     theorem="RbV.Thm.GenSrcSelect.selectX_eq_model"),
+                dict(name="RankSelect::select_1", lean="select1", header="pub fn select_1(&self, j: u64) -> Option<u64>",
+                     self_fields=RANKSELECT_FIELDS, params=[("j", "u64")], ret="Option<u64>",
+                     abstract_fns=RANKSELECT_BSEARCH, closure_calls=RANKSELECT_SELECT_X,
+                     theorem="RbV.Thm.GenSrcSelect.select1_eq_model"),
+                dict(name="RankSelect::select_0", lean="select0", header="pub fn select_0(&self, j: u64) -> Option<u64>",
+                     self_fields=RANKSELECT_FIELDS, params=[("j", "u64")], ret="Option<u64>",
+                     abstract_fns=RANKSELECT_BSEARCH, closure_calls=RANKSELECT_SELECT_X,
+                     theorem="RbV.Thm.GenSrcSelect.select0_eq_model")])
 
 
 # (genbits) wavelet matrix queries.  `RankSelect` is an abstract type whose `rank_0` / `rank_1` are abstract *monadic*
@@ -2973,8 +3449,17 @@ unit(name="SrcRankSelect", props="property C17", file="src/data_structures/rank_
 # the `const DNA2INT` table is a parameter (its value is extracted separately into Gen/Dna2Int.lean).
 WAVELET_FIELDS = [("width", "usize"), ("height", "usize"), ("zeros", "Vec<u64>"), ("levels", "Vec<RankSelect>")]
 
+# (gensel) the constructor: `bv::BitVec<u8>` is an abstract type with `new_fill` / `set_bit` (external crate; `set_bit` may
+# panic: position out of range), `RankSelect::new` an abstract monadic function (the composition theorem instantiates it
+# with the translated constructor of Gen/SrcRankSelect.lean)
+WAVELET_SETBIT = {"BitVec.set_bit": dict(lean="setBit", args=["BitVec", "u64", "bool"], ret="BitVec", monadic=True,
+                                         mutates=True)}
+WAVELET_NEW_ABS = dict(WAVELET_SETBIT, **{
+    "BitVec::new_fill": dict(lean="newFill", args=["bool", "u64"], ret="BitVec"),
+    "RankSelect::new": dict(lean="rsNew", args=["BitVec", "usize"], ret="RankSelect", monadic=True)})
+
 unit(name="SrcWavelet", props="property C17", file="src/data_structures/wavelet_matrix.rs",
-     imports=["RbV.Basic.RsSemBits"], generics={"RankSelect": "ρ"},
+     imports=["RbV.Basic.RsSemBits"], generics={"RankSelect": "ρ", "BitVec": "β"}, abstract_types=["BitVec"],
      abstract_fns={"RankSelect.rank_0": dict(lean="rank0", args=["RankSelect", "u64"], ret="Option<u64>", monadic=True),
                    "RankSelect.rank_1": dict(lean="rank1", args=["RankSelect", "u64"], ret="Option<u64>", monadic=True)},
      self_calls={"check_overflow": dict(lean="SrcWavelet.checkOverflow", fields=[f for f, _ in WAVELET_FIELDS],
@@ -2992,7 +3477,24 @@ unit(name="SrcWavelet", props="property C17", file="src/data_structures/wavelet_
                 dict(name="WaveletMatrix::rank", lean="rank", header="pub fn rank(&self, val: u8, p: u64) -> u64",
                      self_fields=WAVELET_FIELDS, params=[("DNA2INT", "[u8; 128]"), ("val", "u8"), ("p", "u64")],
                      ret="u64", locals={"spos": "u64"},
-                     theorem="RbV.Thm.GenSrcWavelet.rank_eq_model")])
+                     theorem="RbV.Thm.GenSrcWavelet.rank_eq_model"),
+                dict(name="build_partlevel", lean="buildPartlevel",
+                     header="fn build_partlevel(vals: &[u8], shift: u8, next_zeros: &mut Vec<u8>, next_ones: &mut Vec<u8>, "
+                            "bits: &mut BitVec<u8>, prev_bits: u64,)",
+                     params=[("DNA2INT", "[u8; 128]"), ("vals", "&[u8]"), ("shift", "u8"), ("next_zeros", "&mut Vec<u8>"),
+                             ("next_ones", "&mut Vec<u8>"), ("bits", "&mut BitVec<u8>"), ("prev_bits", "u64")],
+                     ret=None, abstract_fns=WAVELET_SETBIT, canonical_state=True,
+                     theorem="RbV.Thm.GenSrcWaveletNew.buildPartlevel_eq_model"),
+                dict(name="WaveletMatrix::new", lean="new", header="pub fn new(text: &[u8]) -> Self",
+                     params=[("DNA2INT", "[u8; 128]"), ("text", "&[u8]")],
+                     ret="(usize, usize, Vec<u64>, Vec<RankSelect>)", shadow_ok=True, canonical_state=True,
+                     struct_fields={"WaveletMatrix": [f for f, _ in WAVELET_FIELDS]},
+                     struct_field_types={"WaveletMatrix": dict(WAVELET_FIELDS)},
+                     abstract_fns=WAVELET_NEW_ABS,
+                     mut_calls={"build_partlevel": dict(
+                         lean="SrcWavelet.buildPartlevel", extra=["rank0", "rank1", "setBit", "DNA2INT"],
+                         args=["&[u8]", "u8", "&mut Vec<u8>", "&mut Vec<u8>", "&mut BitVec<u8>", "u64"], muts=[2, 3, 4])},
+                     theorem="RbV.Thm.GenSrcWaveletNew.new_eq_model")])
 
 
 unit(name="SrcBwt", props="property C04", file="src/data_structures/bwt.rs",
@@ -3049,6 +3551,26 @@ pub fn digits(mut x: u64) -> Vec<u64> {
     d
 }
 
+// (gensel) `return` inside nested range loops, `bool as usize`, `binary_search` as an abstract function
+pub fn find_pair(v: &[u8], keys: &[u8], key: u8) -> Option<usize> {
+    let start = match keys.binary_search(&key) {
+        Ok(i) | Err(i) => i,
+    };
+    let mut seen: usize = 0;
+    for i in start..v.len() {
+        if v[i] != 0 {
+            for j in 0..i {
+                seen += (v[j] == v[i]) as usize;
+                if seen == 2 {
+                    return Some(i * 10 + j);
+                }
+            }
+        }
+        seen += 1;
+    }
+    None
+}
+
 pub fn checksum(data: &[u8], modulus: u32) -> u32 {
     assert!(modulus > 0, "modulus");
     let mut acc = 0u32;
@@ -3070,6 +3592,9 @@ SELFTEST_UNIT = dict(
              ret="Vec<u64>", fuel=["x + 1"]),
         dict(name="checksum", lean="checksum", header="pub fn checksum(data: &[u8], modulus: u32) -> u32",
              params=[("data", "&[u8]"), ("modulus", "u32")], ret="u32"),
+        dict(name="find_pair", lean="findPair", header="pub fn find_pair(v: &[u8], keys: &[u8], key: u8) -> Option<usize>",
+             params=[("v", "&[u8]"), ("keys", "&[u8]"), ("key", "u8")], ret="Option<usize>",
+             abstract_fns={"slice.binary_search": dict(lean="bsearch", args=["&[u8]", "u8"], ret="usize")}),
     ])
 
 # (statement text placed in a function `fn f(v: &[u8], n: usize) -> usize { … }`, substring expected in the refusal)
@@ -3078,7 +3603,7 @@ SELFTEST_REFUSED = [
     ("match n { 0 => 1, _ => 2 }", "`match`|pattern starting with"),
     ("let c = |a: usize| a + 1; c(n)", "closure"),
     ("let q = 3; n + q", "cannot be read off the text"),
-    ("for i in 0..n { if v[i] == 0 { return i; } } n", "`return` is only translated"),
+    ("for x in v { if *x == 0 { return n; } } n", "`return` inside a `for` loop whose source is not a range"),
     ("let x = v.iter().map(|b| *b as usize).sum::<usize>(); x", "closure|turbofish"),
     ("while n > 0 { } n", "no fuel expression"),
     ("let s = v[1..3]; n", "sub-slice"),
@@ -3117,7 +3642,9 @@ def selftest(with_lean):
             ok = False
         checks = ["#eval findFirst [5, 7, 7, 9] 7   -- ok 1", "#eval findFirst [] 7   -- ok 0",
                   "#eval squares 17   -- ok [0, 1, 4, …, 225, 0, 33]", "#eval digits 9075   -- ok [5, 7, 0, 9]",
-                  "#eval checksum [1, 2, 3] 1000003", "#eval checksum [1, 2, 3] 0   -- panic (assert!)"]
+                  "#eval checksum [1, 2, 3] 1000003", "#eval checksum [1, 2, 3] 0   -- panic (assert!)",
+                  "#eval findPair (fun _ _ => 1) [9, 0, 4, 4, 4] [] 0   -- ok (some 30): return from the inner loop",
+                  "#eval findPair (fun _ _ => 0) [0, 0] [] 0   -- ok none"]
         lean_text = text.replace("end RbV.Gen.SrcSelfTest", "\n".join(checks) + "\nend RbV.Gen.SrcSelfTest")
         if with_lean:
             lf = os.path.join(tmp, "SelfTest.lean")
@@ -3127,7 +3654,8 @@ def selftest(with_lean):
             p = subprocess.run(["lake", "env", "lean", lf], cwd=lean_dir, stdout=subprocess.PIPE, stderr=subprocess.STDOUT,
                                text=True, timeout=600)
             print(p.stdout.strip())
-            want = ["RbV.Rs.Res.ok 1", "RbV.Rs.Res.ok 0", "225, 0, 33]", "RbV.Rs.Res.ok [5, 7, 0, 9]", "RbV.Rs.Res.panic"]
+            want = ["RbV.Rs.Res.ok 1", "RbV.Rs.Res.ok 0", "225, 0, 33]", "RbV.Rs.Res.ok [5, 7, 0, 9]", "RbV.Rs.Res.panic",
+                    "RbV.Rs.Res.ok (some 30)", "RbV.Rs.Res.ok none"]
             if p.returncode != 0 or any(w not in p.stdout for w in want):
                 print("selftest: the generated Lean does not compile or evaluates differently")
                 ok = False
